@@ -18,6 +18,7 @@ REQUIRED = [
     "writable_monotone", "step_protected",
     "canonical_index_refines", "canonical_index_in_bounds", "slice_indices_refine", "slice_indices_in_bounds",
     "slice_accepted_forward", "slice_rejected_only_if", "slice_any_sign_false", "slice_any_sign_witnesses",
+    "slice_any_sign_repaired", "slice_empty_backward_witness", "ifelse_refines_repaired", "array2d_forward_slices_accepted",
     "getitem_refines", "getslice_refines", "getmask_refines", "setitem_scalar_slice_refines",
     "setitem_scalar_int_refines", "setitem_vector_slice_refines", "setitem_vector_length_mismatch",
     "setitem_scalar_mask_refines", "setitem_vector_mask_refines", "ifelse_refines", "mask_length_mismatch",
@@ -384,7 +385,7 @@ def buffers(chk):
         cases = fb["unsafe"][:: max(1, len(fb["unsafe"]) // 6)][:6]
 
         def run1(c):
-            cmd = ["valgrind", "--error-exitcode=9", "-q", pyimath.PYTHON, os.path.join(c19lib.HPY, "c19_buffers.py"), "from", "one"] + \
+            cmd = ["valgrind", "--error-exitcode=9", "-q", "--undef-value-errors=no", pyimath.PYTHON, os.path.join(c19lib.HPY, "c19_buffers.py"), "from", "one"] + \
                   [str(x) for x in c if x is not None]
             return c, lib.sh(cmd, env=pyimath.env({"PYTHONMALLOC": "malloc"}), timeout=600)
         over = []
@@ -562,7 +563,7 @@ def lifetimes(chk):
                 seen.add(k); sub.append(c)
 
         def vg(c):
-            return c, lib.sh(["valgrind", "--error-exitcode=9", "-q", pyimath.PYTHON, script, "run", c[0], str(c[1])],
+            return c, lib.sh(["valgrind", "--error-exitcode=9", "-q", "--undef-value-errors=no", pyimath.PYTHON, script, "run", c[0], str(c[1])],
                              env=pyimath.env({"PYTHONMALLOC": "malloc"}), timeout=900)
         with ThreadPoolExecutor(lib.NCPU) as ex:
             for c, (rc, o) in ex.map(vg, sub):
